@@ -666,7 +666,7 @@ func (o *Oracles) onApplyResult(w *World, st *Stack, c *apCall, planStable bool,
 	if o.ap.memoryBroken {
 		return // what "old" was is no longer known: the in-memory view it is taken from has been off since a roll-back failed
 	}
-	if w.hasViolationClass("status-write-overwrote-newer-config") || w.hasViolationClass("import-overwrote-newer-status") {
+	if w.hasViolationClass("status-write-overwrote-newer-config") || w.hasViolationClass("import-overwrote-newer-status") || w.hasViolationClass("position-write-overwrote-newer-config") {
 		return // the stored document was already damaged by the lost update reported above (its own finding)
 	}
 	// (e) failure: old or new, completely. What is promised is a consistent *stored*
